@@ -129,6 +129,12 @@ pub fn expected_response(
         .wrapping_add(fnv(body));
     let mut out = std::collections::HashMap::new();
     out.insert("x-req-hash".to_string(), format!("{req_hash:016x}"));
+    // a request may ask for a response header of a given size (used to steer frame sizes)
+    if let Some(n) = headers.get("x-resp-pad").and_then(|v| v.parse::<usize>().ok()) {
+        if n <= 64 << 20 {
+            out.insert("pad".to_string(), "p".repeat(n));
+        }
+    }
     match Ctl::decode(body) {
         Some(ctl) => {
             out.insert("x-id".to_string(), ctl.id.to_string());
